@@ -15,17 +15,40 @@ From GM Require Props.C06_conn.
 Import ListNotations.
 Open Scope N_scope.
 
-(* At each Publish of every history: a session's queue (temporary for QoS 0, stored otherwise)
-   gains the message iff the session holds a filter f with topic_matches f topic at that
-   moment (offline-and-full: dropped; receiver closing: may be skipped; call cut short by
-   ErrQueueFull: some of them) — exactly one copy whatever the number of matching filters,
-   topic and payload unchanged, retain = false; its subscriptions, its other queue, its
-   active connection and all sessions without a matching filter are unchanged; no session
-   appears or disappears; the result is ErrQueueFull iff the publisher's own matching queue
-   is full, and the call waits iff another live session's matching queue is full. *)
+(* At each Publish of every history, either the call is refused with ErrQueueFull — exactly when the LIVE publisher's
+   own session holds a matching filter and its queue for this message is full — and then nothing has changed
+   (C06_queue_full_atomic), or it waits (another live session's matching queue is full; nothing has changed), or it
+   returns nil and then EVERY session that holds a filter f with topic_matches f topic at that moment has gained the
+   message in its queue for this QoS class (temporary for QoS 0, stored otherwise) — exactly one copy whatever the
+   number of matching filters, topic and payload unchanged, retain = false — with two documented exceptions: an
+   offline session whose queue is full, and a session whose connection is closing and whose queue is full (this
+   includes the closing publisher's own session: a will is never refused) keep their queue as it is.  Sessions
+   without a matching filter, all subscriptions, active connections and the other queue of every session are
+   unchanged; no session appears or disappears.  There is no partial fan-out. *)
 Theorem C06_targets : forall cap ops, holds_along targets_ok cap ops.
 Proof. exact targets_along. Qed.
 Print Assumptions C06_targets.
+
+(* ErrQueueFull is atomic: in every history a Publish that returns ErrQueueFull has changed nothing (no session, no
+   queue, not the retained store), and it is the pre-check that refused it *)
+Theorem C06_queue_full_atomic : forall cap ops st c m got st',
+  In (st, OPublish c m got, RQueueFull, st') (trace (init cap) ops) ->
+  st' = st /\ own_refused st c m = true.
+Proof. exact queue_full_atomic. Qed.
+Print Assumptions C06_queue_full_atomic.
+
+(* the same as a step clause (evaluated on the implementation) *)
+Theorem C06_queue_full_atomic_step : forall cap ops, holds_along refused_ok cap ops.
+Proof. exact refused_along. Qed.
+Print Assumptions C06_queue_full_atomic_step.
+
+(* the publish of a closing connection (its will, published by cleanup) is never refused; its own full queue is
+   skipped like any other closing receiver's (C06_targets) *)
+Theorem C06_closing_publisher_not_refused : forall cap ops st c m got r st',
+  In (st, OPublish c m got, r, st') (trace (init cap) ops) ->
+  mem_n c (st_dying st) = true -> r <> RQueueFull.
+Proof. exact closing_publisher_not_refused. Qed.
+Print Assumptions C06_closing_publisher_not_refused.
 
 (* Every Dequeue returns the head of the chosen queue with topic, payload and retain flag
    intact and qos = min m.qos q for some (f, q) of the session with topic_matches f topic
@@ -71,8 +94,8 @@ Print Assumptions C06_qos_reading.
 
 (* Delivery log.  `expected k temp steps []` (Broker/BackendLog.v) replays, for queue `temp` of session k, what
    the specification says each observed step does to it: a Publish appends one copy iff the session holds a
-   matching filter at that moment and the queue has room (offline/closing receivers: dropped when full; a call
-   cut short by ErrQueueFull: the sessions it reached), a Subscribe appends the retained replay, a Dequeue by the
+   matching filter at that moment and the queue has room (offline/closing receivers: dropped when full; a refused
+   or waiting call: nothing), a Subscribe appends the retained replay, a Dequeue by the
    holder removes the front element, resuming a stored session resets its temporary queue, a session that is
    deleted or created starts empty.  After every history each existing queue holds exactly that:
    dequeued ++ queued = enqueued, in publish order. *)
